@@ -415,10 +415,53 @@ def main():
                 except Exception as ex:
                     ev.append({"e": "Raise", "what": type(ex).__name__ + ": " + str(ex)[:80]})
                 traces.append({"tid": tid(), "hdr": {"kind": f"real:{name}:{gk}:l{lvl}", "ax": [], "bd": [], "org": 0, "atoms": []}, "ev": ev})
+    # ---- C04, infinite variation, copula chain: the variance (and covariance) of the jumps inside the central cell that is
+    # added to the diffusion matrix (vol_adjustment_ij) against an independent integration of the model's own rectangle
+    # masses (C12): int 2 |s| nu([s, h/2] x cell) ds per margin, int int sgn(x) sgn(y) nu([x, .] x [y, .]) dx dy across
+    traces.append(var_adjust_trace(tid()))
     with open(out, "w") as f:
         for t in traces:
             f.write(json.dumps(t, separators=(",", ":")) + "\n")
     print(len(traces))
+
+
+def var_adjust_trace(tid):
+    from scipy.integrate import dblquad, quad
+    from harness.encode import quantise
+    from rpylib.model.utils import create_clayton_copula, create_levy_copula_model, create_levy_model, ModelType
+    ev = []
+    try:
+        from rpylib.process.markovchain.markovchainlevycopula import vol_adjustment_ij
+        m = create_levy_copula_model([create_levy_model(ModelType.CGMY)(c=0.019, g=2, m=4, y=1.2), create_levy_model(ModelType.HEM)()],
+                                     create_clayton_copula())
+        rows = []
+        for h in (0.2, 0.1):
+            lo, hi = -h / 2, h / 2
+            for (i, j) in ((0, 0), (1, 1), (0, 1)):
+                v = float(vol_adjustment_ij(i, j, h, m))
+                if i == j:
+                    o = 1 - i
+
+                    def f(s):
+                        a, b = [0.0, 0.0], [0.0, 0.0]
+                        a[o], b[o] = lo, hi
+                        a[i], b[i] = (s, hi) if s > 0 else (lo, s)
+                        return 2 * abs(s) * m.mass(a=a, b=b)
+                    ref = quad(f, lo, 0, epsabs=1e-11, limit=200)[0] + quad(f, 0, hi, epsabs=1e-11, limit=200)[0]
+                else:
+                    def g(y, x):
+                        a, b = [0.0, 0.0], [0.0, 0.0]
+                        a[0], b[0] = (x, hi) if x > 0 else (lo, x)
+                        a[1], b[1] = (y, hi) if y > 0 else (lo, y)
+                        return np.sign(x) * np.sign(y) * m.mass(a=a, b=b)
+                    ref = sum(dblquad(g, ax, bx, lambda _: ay, lambda _: by, epsabs=1e-10)[0]
+                              for (ax, bx) in ((lo, 0), (0, hi)) for (ay, by) in ((lo, 0), (0, hi)))
+                u = 1e-5 * max(abs(v), abs(ref), 1e-9)
+                rows.append([int(round(h * 100)), i, j, quantise(v, u), quantise(ref, u)])
+        ev.append({"e": "VarAdj", "rows": rows, "bad": 0})
+    except Exception as ex:
+        ev.append({"e": "Raise", "what": type(ex).__name__ + ": " + str(ex)[:80]})
+    return {"tid": tid, "hdr": {"kind": "real:cgmy12_hem:var-adjust", "ax": [], "bd": [], "org": 0, "atoms": []}, "ev": ev}
 
 
 if __name__ == "__main__":
